@@ -1,11 +1,11 @@
-\* E1 generation, thorough: 2 listeners, classes M > M1 > M2, filters all/tag, <=2 setup subscriptions,
+\* E1 generation, thorough: 2 listeners, classes M > M1, filter all, <=2 setup subscriptions,
 \* <=2 messages, <=1 late (un)subscription, <=2 nested calls.
 CONSTANTS
   Listener = {"L1", "L2"}
-  Class <- c_Class3
-  Parent <- c_Parent3
+  Class <- c_Class2
+  Parent <- c_Parent2
   Prio = {1, 2}
-  Filter = {"all", "tag"}
+  Filter = {"all"}
   MaxMsg = 2
   MaxFrames = 6
   MaxBlocks = 2
